@@ -441,7 +441,27 @@ class Env:
                     self.hint_log.append((w.step, actor(), ino.data if ino is not None else None))
 
             self.fos.after_rename.append(_hint_hook)
-            self._bump_epoch_on(self.fos, ("write", "replace", "rename", "remove", "unlink", "close", "flock", "makedirs"))
+            self._bump_epoch_on(self.fos, ("write", "replace", "rename", "remove", "unlink", "makedirs"))
+            # close / flock change what a lock poller can observe only when they RELEASE a lock
+            _close, _flock = self.fos.close, self.fos.flock
+
+            def close(fd):
+                ofd = self.fos.fds.get(fd)
+                held = ofd is not None and self.fos.flocks.get(ofd.inode.ino, (None,))[0] == ofd.id
+                try:
+                    return _close(fd)
+                finally:
+                    if held:
+                        w.epoch += 1
+
+            def flock(fd, op):
+                try:
+                    return _flock(fd, op)
+                finally:
+                    if op & self.fos.LOCK_UN:
+                        w.epoch += 1
+
+            self.fos.close, self.fos.flock = close, flock
             fos = self.fos
             tf = types.SimpleNamespace(mkstemp=fos.mkstemp, NamedTemporaryFile=fos.NamedTemporaryFile, gettempdir=fos.gettempdir)
             fc = types.SimpleNamespace(flock=fos.flock, LOCK_EX=fos.LOCK_EX, LOCK_NB=fos.LOCK_NB, LOCK_UN=fos.LOCK_UN,
